@@ -1,6 +1,6 @@
 (* C06 — non-vacuity, concrete runs, refutations. *)
 From Coq Require Import List String ZArith Bool Arith Lia.
-From V.C06 Require Import Model Spec Proofs Run.
+From V.C06 Require Import Model Spec Proofs ProofsRoutes Run.
 Import ListNotations.
 Open Scope string_scope.
 Open Scope Z_scope.
@@ -80,3 +80,18 @@ Example ex_check_ok : check_case (ex_case (TArr [(TKI 0, TInt 3); (TKI 1, TInt 1
 Proof. vm_compute. reflexivity. Qed.
 Example ex_check_leak : check_case (ex_case (TArr [(TKI 0, TInt 9); (TKI 1, TInt 1)])) = [1%nat; 2%nat].
 Proof. vm_compute. reflexivity. Qed.
+
+(* ---- the hypotheses of assign_then_write hold after  $a = [3,1,2]; $b = 0;  ---- *)
+Definition st_two : state := run [SLit "a" (LList [LInt 3; LInt 1; LInt 2]); SSetInt "b" 0] state0.
+Example ex_two_vars : exists ca cb a, two_vars st_two "a" "b" ca cb a.
+Proof.
+  exists 4%nat, 6%nat, 5%nat. constructor; try (vm_compute; reflexivity).
+  - lia.
+  - split; [vm_compute; lia|]. split; [|split].
+    + intros c Hc. vm_compute in Hc. vm_compute. repeat (destruct Hc as [<-|Hc]; [lia|]). destruct Hc.
+    + intros c Hc. vm_compute in Hc. repeat (destruct Hc as [<-|Hc]; [vm_compute; reflexivity|]). destruct Hc.
+    + intros c Hc. vm_compute in Hc.
+      repeat (destruct Hc as [<-|Hc]; [split; [vm_compute; reflexivity | vm_compute; lia]|]). destruct Hc.
+  - split; [vm_compute; lia|]. split; [lia|]. vm_compute. intros H. repeat (destruct H as [H|H]; [lia|]). exact H.
+  - split; [vm_compute; lia|]. split; [lia|]. vm_compute. intros H. repeat (destruct H as [H|H]; [lia|]). exact H.
+Qed.
